@@ -115,6 +115,13 @@ def ctx_rule(ctx, prefix):
                 return variants_of_pat(c["pat"])
             if c.get("k") == "match" and len(c["arms"]) == 2 and all(a["body"].get("k") == "lit" and a["body"].get("t") == "bool" for a in c["arms"]) and c["arms"][0]["body"]["v"] is True:
                 return variants_of_pat(c["arms"][0]["pat"])
+            if c.get("k") == "call" and len(c["args"]) == 1:
+                # a private predicate over the token whose body is such a test of its parameter
+                hs = [g for g in ctx.sc.fns if g.name == sir.call_name(c) and g.body and g.ret == "bool" and not g.base]
+                if len(hs) == 1 and hs[0].body["stmts"]:
+                    last = hs[0].body["stmts"][-1]
+                    if last.get("k") == "expr" and not last.get("semi"):
+                        return kinds_of_test(last["e"])
             return None
         if len(emits) == 1:
             w = emits[0]
@@ -707,6 +714,58 @@ def class_flag_rule(ctx, prefix):
     return obs
 
 
+def class_name_table(ctx, f):
+    """what write_maybe_class_name emits for every combination of (class position, prefix configured, sign configured):
+    -> list of problems, or None when a combination cannot be followed"""
+    import absint as ai
+    pn = [x for x in f.param_names() if x]
+    if "in_class" not in pn:
+        return None
+    NEXT = ("E", "NEXT-TOKEN", ())
+
+    def hooks(it, e, st):
+        if e.get("k") == "call" and (sir.call_path(e) or "").endswith("StepToken::wrap") and e["args"]:
+            vs = [o.value for o in it.ev(e["args"][0], st) if o.kind == "val"]
+            return [(vs[0] if len(vs) == 1 else ai.UNK, st)]
+        if e.get("k") == "mcall" and e["m"] in ("append_token", "append_token_space_preserved") and len(e["args"]) == 3:
+            vs = [o.value for o in it.ev(e["args"][0], st) if o.kind == "val"]
+            v = vs[0] if len(vs) == 1 else ai.UNK
+            kind = "other"
+            if v == NEXT:
+                kind = "plain"
+            elif isinstance(v, tuple) and v[:2] == ("E", "Comment"):
+                kind = "sign"
+            elif isinstance(v, tuple) and v[:2] == ("E", "Ident") and v[2] and isinstance(v[2][0], tuple) and v[2][0][:1] == ("FMT",) and "--" in v[2][0][1]:
+                kind = "prefixed"
+            elif ai.is_unknown(v):
+                kind = "?"
+            return [(ai.UNIT, st.event(("emit", kind)))]
+        return None
+    probs = []
+    for in_class in (True, False):
+        for pfx in (("Some", ai.FREE), ai.NONE):
+            for sign in (("Some", ai.FREE), ai.NONE):
+                it = ai.Interp(hooks=hooks, idx=ctx.sc)
+                it.field_vars = {"class_prefix", "class_prefix_sign"}
+                env = {x: ai.FREE for x in pn}
+                env.update({"self": ai.FREE, "in_class": in_class, "$f:class_prefix": pfx, "$f:class_prefix_sign": sign})
+                for x in pn:
+                    if x == "next":
+                        env[x] = NEXT
+                try:
+                    outs = it.run(f.body, env)
+                except ai.TooManyPaths:
+                    return None
+                want = (["sign"] if in_class and sign != ai.NONE else []) + (["prefixed"] if in_class and pfx != ai.NONE else ["plain"])
+                for o in outs:
+                    got = [ev[1] for ev in o.events if ev[0] == "emit"]
+                    if got != want:
+                        if o.tainted or "?" in got:
+                            return None
+                        probs.append("in a %s position, prefix %s, sign %s: writes %s (expected %s)" % ("class" if in_class else "non-class", "configured" if pfx != ai.NONE else "absent", "configured" if sign != ai.NONE else "absent", got or "nothing", want))
+    return sorted(set(probs))
+
+
 def class_only_rule(ctx, prefix):
     ob = ctx.ob
     obs = []
@@ -799,6 +858,12 @@ def class_only_rule(ctx, prefix):
     if not (n_rewrite == 1 and n_plain >= 1 and n_sign == 1):
         probs.append("expected one sign write, one rewriting write and at least one plain copy; found %d/%d/%d" % (n_sign, n_rewrite, n_plain))
     ok_cond = not probs
+    # the decision itself is read from abstract outcomes (lib/absint.py), whatever its spelling; the guard-based reading above
+    # only supplies detail when the interpreter cannot follow the function
+    tab = class_name_table(ctx, f)
+    if tab is not None:
+        probs = tab
+        ok_cond = not probs
     obs.append(ob("%s.only/condition" % prefix, ok_cond, where, "; ".join(probs) if probs else "a name is rewritten iff it is in a class position and a prefix is configured; the sign is written iff it is in a class position and a sign is configured; otherwise the token is copied",
                   witness=None if ok_cond else ".p--b with prefix p is left as .p--b instead of .p--p--b while the sign comment is still written"))
     fmts = [sir.format_call(n) for n in sir.walk(f.body) if sir.format_call(n)]
